@@ -21,7 +21,7 @@ ASSUMPTIONS = [
     "skipped empty labels, high*65536+low, sum with None counted 0, round(v*i), documented thresholds of grid_in_out) are the oracle's",
     "a rounding tie within 1e-6 accepts either neighbour",
 ]
-MUST = ["end_to_end_results", "end_to_end_with_mppt_block", "end_to_end_labels", "bitmap4_whole_table_checked", "label_pairs_checked", "bitmap4_checked", "bitmap22_checked", "nonempty_bitmap_labels", "sum_checked", "product_checked",
+MUST = ["earlier_object_polled_again", "end_to_end_results", "end_to_end_with_mppt_block", "end_to_end_labels", "bitmap4_whole_table_checked", "label_pairs_checked", "bitmap4_checked", "bitmap22_checked", "nonempty_bitmap_labels", "sum_checked", "product_checked",
         "grid_in_out_checked", "house_consumption_checked", "es_signed_powers_checked"]
 EXHAUSTIVE = {"quick": False, "thorough": True}
 
@@ -248,6 +248,7 @@ def check_e2e(spec, part):
     from .. import configs, engine, models
     g = env.goodwe()
     rnd = random.Random(spec["seed"])
+    prev = None         # the inverter object of the previous iteration is polled once more AFTER this one's read_device_info()
     for i in range(spec["n"]):
         fam = rnd.choice(("ET", "ET", "ET", "DT", "ES"))
         if fam == "ET":
@@ -266,9 +267,10 @@ def check_e2e(spec, part):
             if rnd.random() < 0.5:
                 sim.regs[35140] = rnd.choice((-92, -91, -90, -89, 0, 89, 90, 91)) & 0xFFFF
         res = {}
+        host = f"inv{i % 2}"
 
         async def flow(loop):
-            inv = models.family_cls(g, fam)("inv0", port, 0, 1, 0)
+            inv = models.family_cls(g, fam)(host, port, 0, 1, 0)
             res["inv"] = inv
             await inv.read_device_info()
             res["polls"] = []
@@ -278,8 +280,16 @@ def check_e2e(spec, part):
                 except g.InverterError:
                     res["polls"].append(None)
             res["sensors"] = inv.sensors()
+            if prev is not None:
+                try:
+                    res["prev_poll"] = await prev["inv"].read_runtime_data()
+                except g.InverterError:
+                    res["prev_poll"] = None
 
-        run = engine.run_custom({("inv0", port): sim}, flow, vtime_cap=3000, tx_cap=3000)
+        peers = {(host, port): sim}
+        if prev is not None:
+            peers[(prev["host"], prev["port"])] = prev["sim"]
+        run = engine.run_custom(peers, flow, vtime_cap=3000, tx_cap=3000)
         part.evaluations += 1
         case = {"e2e": True, "seed": spec["seed"], "i": i}
         if run.stop or run.error is not None:
@@ -288,9 +298,16 @@ def check_e2e(spec, part):
 
         def z(v):
             return 0 if v is None else v
-        for d in res["polls"]:
+        cur = {"inv": res["inv"], "sim": sim, "fam": fam, "cfg": cfg, "host": host, "port": port, "sensors": res["sensors"]}
+        todo = [(cur, d) for d in res["polls"]]
+        if prev is not None and res.get("prev_poll") is not None:
+            todo.append((prev, res["prev_poll"]))
+            part.count("earlier_object_polled_again")
+        for who, d in todo:
             if d is None:
                 continue
+            fam, cfg, sim = who["fam"], who["cfg"], who["sim"]
+            res["inv"], res["sensors"] = who["inv"], who["sensors"]
             part.count("end_to_end_results")
 
             def bad(rel, msg):
@@ -343,6 +360,7 @@ def check_e2e(spec, part):
                     if d[sn.id_] != sn._labels.get(d[sn.id_[:-6]]):
                         part.violate(f"C13/{fam}/label/{sn.id_}", f"{fam} read_runtime_data(): {sn.id_}={d[sn.id_]!r} but {sn.id_[:-6]}={d[sn.id_[:-6]]!r}", case)
         part.see(f"e2e|{fam}|{cfg.get('tag')}|{cfg.get('rated')}|{style}")
+        prev = cur
 
 
 def plan(tier, seed):
